@@ -139,7 +139,8 @@ func (g *G) Stmt(depth int, ind string) string {
 			// no geometric growth inside loops
 			switch v.Type {
 			case TStr:
-				return v.Name + " += " + g.lit(TStr)
+				// (a loop over the string itself would otherwise triple it per pass)
+				return "if len(" + v.Name + ") < 200 { " + v.Name + " += " + g.lit(TStr) + " }"
 			case TBytes:
 				return v.Name + " = " + g.lit(TBytes)
 			default:
